@@ -68,3 +68,7 @@ def run(ctx):
                 "configured receive number, and 81 SessionID comparisons; distinct = distinct configurations" % len(cases))
     ctx.sample({"case": cases[7], "commands": execs[7].cmds})
     ctx.trusted = ["TLC", "probe_session", "lib/fixmsg.py", "ASan/UBSan (every 8th execution)"]
+
+
+def replay(ctx, doc):
+    sc.replay_case(ctx, doc)
